@@ -274,3 +274,10 @@ def _install(I):
         return all(not (isinstance(x, tuple) and x and x[0] == kind) for x in clk.items)
     I.spec_fns['no_clock_request'] = Builtin('spec.no_clock_request', no_clock_request)
 spec.EXTRA_INSTALLERS.append(_install)
+
+
+for _c in spec.REGISTRY:
+    if 'C09' in _c.serves and _c.path in (M, CK, SJ):
+        _c.assume_note('C09 rely: Machine._keep_running and Clock._keep_going are written by other threads: every read returns an arbitrary value that, '
+                       'once False has been read, stays False until this thread writes it; that a thread blocked in threading.Event.wait() is woken '
+                       'after a stop is NOT decided (liveness)')
